@@ -29,7 +29,7 @@ from geckolib import GeckoSpaState as S  # noqa: E402
 
 DELAYS = [0.0, 0.5, 1.0, 2.0]
 STARTS = [0.0, 0.5, 1.0]
-SWITCH_AT = [0.0, 0.5, 1.0, 1.5, 2.0, 2.5]
+SWITCH_AT = [0.0, 0.5, 1.0, 1.5, 2.0, 2.5, 3.0]
 
 
 def table(active):
@@ -80,11 +80,14 @@ def _sleep_run(ch, sleepers, switches):
     sw_done = []
     errors = []
 
+    ROUNDS = 3
+
     async def sleeper(i, start, delay):
         await asyncio.sleep(start)
-        started[i] = (loop.time() - t0, len(sw_done))
-        await gconfig.config_sleep(delay)
-        woke[i] = loop.time() - t0
+        for r in range(ROUNDS):  # library loops sleep again and again on the shared future
+            started[(i, r)] = (loop.time() - t0, len(sw_done))
+            await gconfig.config_sleep(delay if delay > 0 or r == 0 else 0.5)
+            woke[(i, r)] = loop.time() - t0
 
     async def switcher(k, at, mode):
         await asyncio.sleep(at)
@@ -98,7 +101,7 @@ def _sleep_run(ch, sleepers, switches):
     with loop.running():
         ts = [loop.create_task(sleeper(i, s, d), name=f"HARNESS:sleeper{i}") for i, (s, d) in enumerate(sleepers)]
         ts += [loop.create_task(switcher(k, at, k % 2 == 0), name=f"HARNESS:switch{k}") for k, at in enumerate(switches)]
-    loop.run_for(10.0, lambda: all(t.done() for t in ts))
+    loop.run_for(20.0, lambda: all(t.done() for t in ts))
     why = None
     for t in ts:
         if not t.done():
@@ -107,16 +110,18 @@ def _sleep_run(ch, sleepers, switches):
             why = ("raised", f"{t.get_name()} raised {t.exception()!r}")
     if why is None:
         for i, (s, d) in enumerate(sleepers):
-            st, n_sw_before = started[i]
-            # switches that happened after this sleeper began sleeping, in the order the schedule ran them
-            later = [t for (t, m) in sw_done[n_sw_before:] if m is not None]
-            exp = min([st + d] + later[:1])
-            if woke[i] > st + d + 1e-9:
-                why = ("overslept", f"sleeper {i} (start {s}, delay {d}) woke at {woke[i]:.2f}, asked for {st + d:.2f}")
-            elif woke[i] > exp + 1e-9:
-                # (waking early without a switch is not excluded by the statement and is not reported)
-                why = ("not-woken", f"sleeper {i} (start {s}, delay {d}) woke at {woke[i]:.2f}, but the mode was switched at "
-                                    f"{exp:.2f} (switches {[round(t, 2) for t, m in sw_done]})")
+            for r in range(ROUNDS):
+                st, n_sw_before = started[(i, r)]
+                dd = d if d > 0 or r == 0 else 0.5
+                # switches that happened after this sleep began, in the order the schedule ran them
+                later = [t for (t, m) in sw_done[n_sw_before:] if m is not None]
+                exp = min([st + dd] + later[:1])
+                if woke[(i, r)] > st + dd + 1e-9:
+                    why = ("overslept", f"sleeper {i} round {r} (began {st:.2f}, delay {dd}) woke at {woke[(i, r)]:.2f}")
+                elif woke[(i, r)] > exp + 1e-9:
+                    # (waking early without a switch is not excluded by the statement and is not reported)
+                    why = ("not-woken", f"sleeper {i} round {r} (began {st:.2f}, delay {dd}) woke at {woke[(i, r)]:.2f}, but the mode was "
+                                        f"switched at {exp:.2f} (switches {[round(t, 2) for t, m in sw_done]})")
         good = [m for t, m in sw_done if m is not None]
         if good and lib.config_values() != table(good[-1]):
             why = ("table", "table after the last switch is not the chosen one")
